@@ -138,10 +138,86 @@ func execFL(desc string) string {
 	return out
 }
 
+// oneWay sends each size with WriteTo from `from` and reads at `to` as many messages as
+// datagrams left; entry = n:<datagram sizes>:<ReadFrom lengths, "!" when the bytes differ>
+func oneWay(from, to *dtlcp.Conn, fromEnd, toEnd *pair.PacketEnd, szs string) string {
+	if szs == "" || szs == "-" {
+		return "-"
+	}
+	var ws []string
+	buf := make([]byte, 40000)
+	for _, z := range strings.Split(szs, ".") {
+		n, _ := strconv.Atoi(z)
+		before := len(fromEnd.SentCopy())
+		pl := payload(n)
+		wn, err := from.WriteTo(pl, toEnd.LocalAddr())
+		if err != nil || wn != n {
+			ws = append(ws, fmt.Sprintf("%d:err:-", n))
+			continue
+		}
+		sent := fromEnd.SentCopy()[before:]
+		var got []byte
+		var lens []string
+		for range sent {
+			to.SetReadDeadline(time.Now().Add(150 * time.Millisecond))
+			k, _, err := to.ReadFrom(buf)
+			if err != nil {
+				lens = append(lens, "err")
+				break
+			}
+			lens = append(lens, strconv.Itoa(k))
+			got = append(got, buf[:k]...)
+		}
+		rd := "-"
+		if len(lens) > 0 {
+			rd = strings.Join(lens, ".")
+		}
+		if len(sent) > 0 && !bytes.Equal(got, pl) {
+			rd += "!"
+		}
+		ws = append(ws, fmt.Sprintf("%d:%s:%s", n, sizes(sent), rd))
+	}
+	return strings.Join(ws, ",")
+}
+
+// stream: one Write of n bytes at `from`, Read at `to` until n bytes arrived (or an error)
+func stream(from, to *dtlcp.Conn, fromEnd *pair.PacketEnd, n int) string {
+	if n <= 0 {
+		return "-"
+	}
+	before := len(fromEnd.SentCopy())
+	pl := payload(n)
+	wn, err := from.Write(pl)
+	if err != nil || wn != n {
+		return fmt.Sprintf("%d:err:-", n)
+	}
+	sent := fromEnd.SentCopy()[before:]
+	var got []byte
+	var lens []string
+	buf := make([]byte, 40000)
+	for len(got) < n {
+		to.SetReadDeadline(time.Now().Add(150 * time.Millisecond))
+		k, err := to.Read(buf)
+		if err != nil {
+			lens = append(lens, "err")
+			break
+		}
+		lens = append(lens, strconv.Itoa(k))
+		got = append(got, buf[:k]...)
+	}
+	rd := strings.Join(lens, ".")
+	if !bytes.Equal(got, pl) {
+		rd += "!"
+	}
+	return fmt.Sprintf("%d:%s:%s", n, sizes(sent), rd)
+}
+
 func execE2E(desc string) string {
 	su, _ := hx.KV(desc, "suite")
 	cp, sp := hx.KVInt(desc, "cp"), hx.KVInt(desc, "sp")
 	szs, _ := hx.KV(desc, "sizes")
+	rszs, _ := hx.KV(desc, "rsizes")
+	st := hx.KVInt(desc, "stream")
 	var out string
 	p := hx.Guard(func() {
 		std := pki.Std()
@@ -163,42 +239,11 @@ func execE2E(desc string) string {
 			out = fmt.Sprintf("hs=fail hsC=%s hsS=%s", sizes(hsC), sizes(hsS))
 			return
 		}
-		var ws []string
-		se.SetReadDeadline(time.Now().Add(5 * time.Second))
-		for _, z := range strings.Split(szs, ".") {
-			n, _ := strconv.Atoi(z)
-			before := len(ce.SentCopy())
-			pl := payload(n)
-			wn, err := c.WriteTo(pl, se.LocalAddr())
-			if err != nil || wn != n {
-				ws = append(ws, fmt.Sprintf("%d:err:-", n))
-				continue
-			}
-			sent := ce.SentCopy()[before:]
-			// the peer reads as many messages as datagrams were sent; concatenated they must be the payload
-			var got []byte
-			var lens []string
-			buf := make([]byte, 17000)
-			for range sent {
-				s.SetReadDeadline(time.Now().Add(2 * time.Second))
-				k, _, err := s.ReadFrom(buf)
-				if err != nil {
-					lens = append(lens, "err")
-					break
-				}
-				lens = append(lens, strconv.Itoa(k))
-				got = append(got, buf[:k]...)
-			}
-			rd := "-"
-			if len(lens) > 0 {
-				rd = strings.Join(lens, ".")
-			}
-			if len(sent) > 0 && !bytes.Equal(got, pl) {
-				rd += "!"
-			}
-			ws = append(ws, fmt.Sprintf("%d:%s:%s", n, sizes(sent), rd))
-		}
-		out = fmt.Sprintf("hs=ok hsC=%s hsS=%s w=%s", sizes(hsC), sizes(hsS), strings.Join(ws, ","))
+		w := oneWay(c, s, ce, se, szs)  // client -> server, bounded by the CLIENT's PMTU
+		v := oneWay(s, c, se, ce, rszs) // server -> client, bounded by the SERVER's PMTU
+		W := stream(c, s, ce, st)       // Write / Read
+		V := stream(s, c, se, st)
+		out = fmt.Sprintf("hs=ok hsC=%s hsS=%s w=%s v=%s W=%s V=%s", sizes(hsC), sizes(hsS), w, v, W, V)
 	})
 	if p != "" {
 		return "panic=" + p
@@ -349,32 +394,47 @@ func genFL(o hx.Opts, emit func(string)) {
 	}
 }
 
-func genE2E(o hx.Opts, emit func(string)) {
-	pm := [][2]int{{0, 0}, {1400, 600}, {576, 1400}, {400, 400}}
-	if o.Tier == "thorough" {
-		pm = append(pm, [2]int{300, 2000}, [2]int{2000, 300}, [2]int{1500, 1500}, [2]int{9000, 9000}, [2]int{17000, 17000}, [2]int{250, 250})
+func boundary(su string, pmtu int) (string, int) {
+	eff := pmtu
+	if eff <= 0 {
+		eff = 1400
 	}
-	for _, su := range []string{"ecc-gcm", "ecc-cbc", "ecdhe-gcm", "ecdhe-cbc"} {
+	ov := 13 + 8 + 16
+	if strings.HasSuffix(su, "cbc") {
+		ov = 13 + 16 + 32 + 16
+	}
+	m := eff - ov
+	if m > 16384 {
+		m = 16384
+	}
+	var zs []string
+	for _, n := range []int{1, 2, m - 17, m - 16, m - 15, m - 1, m, m + 1, m + 2, m + 14, m + 15, m + 16, m + 17, 2*m + 3} {
+		if n > 0 && n < 36000 {
+			zs = append(zs, strconv.Itoa(n))
+		}
+	}
+	return strings.Join(zs, "."), 3*m + 7
+}
+
+func genE2E(o hx.Opts, emit func(string)) {
+	thorough := o.Tier == "thorough"
+	// PMTU is a per-endpoint SEND-side setting: symmetric and asymmetric pairs, both directions
+	pm := [][2]int{{0, 0}, {1400, 600}, {576, 1400}, {400, 400},
+		{9000, 0}, {9000, 1400}, {20000, 576}, {0, 9000}, {1400, 20000}, {576, 9000}}
+	if thorough {
+		pm = append(pm, [2]int{300, 2000}, [2]int{2000, 300}, [2]int{1500, 1500}, [2]int{9000, 9000}, [2]int{17000, 17000}, [2]int{250, 250},
+			[2]int{20000, 0}, [2]int{20000, 1400}, [2]int{9000, 576}, [2]int{0, 20000}, [2]int{576, 20000}, [2]int{1501, 1500}, [2]int{1500, 1501},
+			[2]int{3000, 1400}, [2]int{1400, 3000}, [2]int{16500, 100}, [2]int{100, 16500})
+	}
+	suites := []string{"ecc-gcm", "ecc-cbc", "ecdhe-gcm", "ecdhe-cbc"}
+	for _, su := range suites {
 		for _, p := range pm {
-			eff := p[0]
-			if eff <= 0 {
-				eff = 1400
+			zs, st := boundary(su, p[0])
+			rzs, _ := boundary(su, p[1])
+			if st > 36000 {
+				st = 36000
 			}
-			ov := 13 + 8 + 16
-			if strings.HasSuffix(su, "cbc") {
-				ov = 13 + 16 + 32 + 16
-			}
-			m := eff - ov
-			if m > 16384 {
-				m = 16384
-			}
-			var zs []string
-			for _, n := range []int{1, 2, m - 17, m - 16, m - 15, m - 1, m, m + 1, m + 2, m + 14, m + 15, m + 16, m + 17, 2*m + 3} {
-				if n > 0 && n < 40000 {
-					zs = append(zs, strconv.Itoa(n))
-				}
-			}
-			emit(fmt.Sprintf("kind=e2e suite=%s cp=%d sp=%d sizes=%s", su, p[0], p[1], strings.Join(zs, ".")))
+			emit(fmt.Sprintf("kind=e2e suite=%s cp=%d sp=%d sizes=%s rsizes=%s stream=%d", su, p[0], p[1], zs, rzs, st))
 		}
 	}
 }
